@@ -61,7 +61,18 @@ def build(name, p=1):
         "Saving(L2Cost)": lambda: (Saving(L2Cost(0.0)), 2, 1),
         "L2Saving": lambda: (L2Saving(), 2, 1),
         "LocalAnomalyScore(L2Cost)": lambda: (LocalAnomalyScore(L2Cost()), 4, 1),
+        # compositions whose minimum size is larger than 1 (validated on symbolic cuts over concrete data: `data="concrete"`)
+        "LocalAnomalyScore(GaussianVarCost)": lambda: (LocalAnomalyScore(GaussianVarCost()), 4, 2),
+        "LocalAnomalyScore(GaussianCovCost)": lambda: (LocalAnomalyScore(GaussianCovCost()), 4, p + 1),
+        "ChangeScore(GaussianCovCost)": lambda: (ChangeScore(GaussianCovCost()), 3, p + 1),
+        "Saving(GaussianVarCost)": lambda: (Saving(GaussianVarCost((0.0, 1.0))), 2, 2),
     }[name]()
+
+
+def concrete_X(n, p):
+    """well-conditioned fixed data for the validation-only runs"""
+    rng = np.random.default_rng(4 * n + p)
+    return np.round(rng.normal(size=(n, p)) * 2, 2) + np.arange(n)[:, None] * 0.37
 
 
 def valid_term(name, c, n, ms):
@@ -98,14 +109,16 @@ def definition(name, X, c, j):
     return None
 
 
-def make_box(name, n, p=1, extra_row=False):
-    X = sym_matrix(n, p)
+def make_box(name, n, p=1, extra_row=False, data="symbolic"):
+    """data="concrete": only the cut is symbolic (accept / reject is the subject; the value is C01 / C06's), which keeps
+    compositions over the Gaussian costs with min_size > 1 within reach (seed C13-e)."""
+    X = sym_matrix(n, p) if data == "symbolic" else concrete_X(n, p)
     scorer0, k, ms = build(name, p)
     cv = [z3.Int(f"c{i}") for i in range(k)]
     base = []
     for v in cv:
         base += [v >= -2, v <= n + 2]
-    info = dict(scorer=name, n=n, p=p, k=k, extra_row=extra_row)
+    info = dict(scorer=name, n=n, p=p, k=k, extra_row=extra_row, data=data)
 
     def run(eng, acc):
         with proxy.settings(exact=True, object_ints=True):
@@ -140,7 +153,7 @@ def make_box(name, n, p=1, extra_row=False):
             m = eng.get_model()
             cut = [m.eval(v, model_completion=True).as_long() for v in cv]
             pinned, _ = eng.valid(z3.And([v == c for v, c in zip(cv, cut)]))
-            if pinned is True and valid_concrete(name, cut, n, ms):
+            if pinned is True and valid_concrete(name, cut, n, ms) and data == "symbolic":
                 row = out[-1]
                 ncols = 1 if name == "GaussianCovCost" else p
                 acc.concrete("O3.shape", tuple(out.shape) == (len(rows), ncols), dict(info, shape=tuple(out.shape), cut=cut))
@@ -153,7 +166,7 @@ def make_box(name, n, p=1, extra_row=False):
                     got = rv(row[j]) * rv(row[j]) if name == "CUSUM" else rv(row[j])
                     acc.oblige(eng, "O3.value_is_definition", got == want, dict(info, cut=cut, col=j))
             acc.sample(dict(info, accepted_cut=cut))
-            if pinned is True and valid_concrete(name, cut, n, ms) and acc.total("witness_tried") < 40:
+            if pinned is True and valid_concrete(name, cut, n, ms) and acc.total("witness_tried") < 40 and data == "symbolic":
                 # float witness: the returned term at a data point vs the native run on the same cut
                 from symnp.witness import FloatEval, close
                 acc.inc("witness_tried")
@@ -232,6 +245,9 @@ def jobs(tier):
         for name in SCORERS:
             out.append(Job(M, "make_box", dict(name=name, n=4, p=1), split=name.startswith("Local")))
         out.append(Job(M, "make_box", dict(name="L2Cost", n=4, p=1, extra_row=True)))
+        for (name, n, p) in (("LocalAnomalyScore(GaussianVarCost)", 5, 1), ("LocalAnomalyScore(GaussianCovCost)", 6, 2), ("ChangeScore(GaussianCovCost)", 6, 2),
+                             ("Saving(GaussianVarCost)", 4, 1)):
+            out.append(Job(M, "make_box", dict(name=name, n=n, p=p, data="concrete"), split=True))
         out.append(Job(M, "make_malformed", dict(n=4, p=1)))
     else:
         for name in SCORERS:
@@ -240,6 +256,10 @@ def jobs(tier):
                     continue      # nlsat finds no model of the definiteness branches within 40 s at this size
                 out.append(Job(M, "make_box", dict(name=name, n=n, p=p), split=True))
             out.append(Job(M, "make_box", dict(name=name, n=4, p=1, extra_row=True), split=True))
+        for (name, n, p) in (("LocalAnomalyScore(GaussianVarCost)", 6, 1), ("LocalAnomalyScore(GaussianVarCost)", 5, 2), ("LocalAnomalyScore(GaussianCovCost)", 6, 2),
+                             ("LocalAnomalyScore(GaussianCovCost)", 7, 2), ("ChangeScore(GaussianCovCost)", 6, 2), ("ChangeScore(GaussianCovCost)", 8, 3),
+                             ("Saving(GaussianVarCost)", 5, 2)):
+            out.append(Job(M, "make_box", dict(name=name, n=n, p=p, data="concrete"), split=True))
         out.append(Job(M, "make_malformed", dict(n=5, p=2)))
     return out
 
@@ -269,6 +289,8 @@ def replay(cx):
     name, n, p, k = info["scorer"], info["n"], info["p"], info["k"]
     cut = info.get("cut") or [int(Fraction(model.get(f"c{i}", "0"))) for i in range(k)]
     Xf = np.array([[float(Fraction(model.get(f"x_{i}_{j}", str(Fraction(i * i + 3 * j + 1, 2))))) for j in range(p)] for i in range(n)])
+    if info.get("data") == "concrete":
+        Xf = concrete_X(n, p)
     with proxy.native():
         scorer, _, ms = build(name, p)
         scorer.fit(Xf)
